@@ -185,6 +185,10 @@ pub struct Th {
     pub park: Option<(Park, &'static str)>,
     pub finished: bool,
     pub panicked: bool,
+    /// the thread held the baton and did not come back to a schedule point in time: it is blocked in (or busy with)
+    /// something the hooks do not see - an un-hooked join, lock or channel wait. The controller schedules the others;
+    /// the mark is cleared when the thread reaches its next point.
+    pub outside: bool,
 }
 
 #[derive(Default)]
@@ -218,7 +222,10 @@ fn park(kind: Park, name: &'static str) {
     match g.as_mut() {
         Some(s) if s.active => {
             s.threads[me].park = Some((kind, name));
-            s.current = None;
+            s.threads[me].outside = false;
+            if s.current == Some(me) || s.current.is_none() {
+                s.current = None;
+            }
             if s.record_events {
                 s.events.push((me, name));
             }
@@ -330,7 +337,7 @@ impl ThreadScope {
             let mut g = lock();
             if let Some(s) = g.as_mut() {
                 if s.active {
-                    s.threads.push(Th { name, std_id: std::thread::current().id(), park: None, finished: false, panicked: false });
+                    s.threads.push(Th { name, std_id: std::thread::current().id(), park: None, finished: false, panicked: false, outside: false });
                     let idx = s.threads.len() - 1;
                     SCHED_ME.with(|m| m.set(Some(idx)));
                     if name != "main" {
